@@ -627,6 +627,9 @@ func runC03(c *Ctx) {
 				c.Check(K(f.Name, "return#"+itoa(i)+" channels owned"), ret.Pos(), okAll, "every returned channel is closed at once or owned by the started goroutine", "a channel can be returned open and ownerless")
 			}
 		}
+		// the provider search: routine closes, entry point closes or hands over
+		c08RoutineClosesChannel(c)
+		c08EntryOwnsChannel(c)
 		c.Check("closed result channels", 0, n >= 3, "value streams and getValues channels of both clients are covered", "found "+itoa(n))
 	}
 
